@@ -1436,4 +1436,67 @@ theorem uniqueKeys_of_store (v : VId) (store : List LogE)
   have := h k hk
   simpa [List.filter_map, Function.comp_def] using this
 
+-- ------------------------------------------------------------------------------------------------ concrete runs (for the non-vacuity examples)
+
+/-- one request alone, run to the end of its path — if every item is enabled when it is reached -/
+def solo (sh : Shared) (j : Job) (rg : Regs) : Path → Option (List Ev × Shared × Regs)
+  | [] => some ([], sh, rg)
+  | x :: rest =>
+    if enabled sh j rg x then
+      (solo (effSh sh j rg x) j (effRg sh j rg x) rest).map (fun r => (evsOf sh j rg x ++ r.1, r.2))
+    else none
+
+theorem solo_cons (sh : Shared) (j : Job) (rg : Regs) (x : Item) (rest : Path) :
+    solo sh j rg (x :: rest) = if enabled sh j rg x then
+      (solo (effSh sh j rg x) j (effRg sh j rg x) rest).map (fun r => (evsOf sh j rg x ++ r.1, r.2)) else none := rfl
+
+/-- what `solo` computes is a yield-point run of the system -/
+theorem solo_runY (adm : Job → Path → Prop) (y0 : YState) (j : Job) :
+    ∀ (todo : Path) (x : Item) (sh : Shared) (rg : Regs) (dn : Path) (r : Option Nat) (tr0 : List Ev)
+      (res : List Ev × Shared × Regs),
+      RunY adm y0 tr0 ⟨⟨sh, [⟨j, rg, dn, true, x :: todo⟩]⟩, r⟩ → (r = none ∨ r = some j.a) →
+      solo sh j rg (x :: todo) = some res →
+      RunY adm y0 (tr0 ++ res.1) ⟨⟨res.2.1, [⟨j, res.2.2, dn ++ x :: todo, true, []⟩]⟩, none⟩ := by
+  intro todo
+  induction todo with
+  | nil =>
+    intro x sh rg dn r tr0 res hrun hr hs
+    rw [solo_cons] at hs
+    split at hs
+    · rename_i hen
+      simp only [solo, Option.map_some, Option.some.injEq] at hs
+      subst hs
+      have := RunY.cons _ _ _ _ _ hrun (StepY.item ⟨⟨sh, [⟨j, rg, dn, true, [x]⟩]⟩, r⟩ [] [] j rg dn x [] rfl hen hr)
+      simpa using this
+    · cases hs
+  | cons x' todo ih =>
+    intro x sh rg dn r tr0 res hrun hr hs
+    rw [solo_cons] at hs
+    split at hs
+    · rename_i hen
+      cases hrec : solo (effSh sh j rg x) j (effRg sh j rg x) (x' :: todo) with
+      | none => rw [hrec] at hs; cases hs
+      | some res' =>
+        have hs' : res = (evsOf sh j rg x ++ res'.1, res'.2) := by
+          rw [hrec] at hs
+          simp only [Option.map_some, Option.some.injEq] at hs
+          exact hs.symm
+        subst hs'
+        have h1 := RunY.cons _ _ _ _ _ hrun
+          (StepY.item ⟨⟨sh, [⟨j, rg, dn, true, x :: x' :: todo⟩]⟩, r⟩ [] [] j rg dn x (x' :: todo) rfl hen hr)
+        have h2 := ih x' (effSh sh j rg x) (effRg sh j rg x) (dn ++ [x])
+          (if endsSegment x || (x' :: todo).isEmpty then none else some j.a) (tr0 ++ evsOf sh j rg x) res'
+          (by simpa using h1) (by split <;> simp) hrec
+        simpa [List.append_assoc] using h2
+    · cases hs
+
+theorem solo_runY' (adm : Job → Path → Prop) (y0 : YState) (j : Job) (todo : Path) (hne : todo ≠ []) (sh : Shared) (rg : Regs)
+    (dn : Path) (r : Option Nat) (tr0 : List Ev) (res : List Ev × Shared × Regs)
+    (hrun : RunY adm y0 tr0 ⟨⟨sh, [⟨j, rg, dn, true, todo⟩]⟩, r⟩) (hr : r = none ∨ r = some j.a)
+    (hs : solo sh j rg todo = some res) :
+    RunY adm y0 (tr0 ++ res.1) ⟨⟨res.2.1, [⟨j, res.2.2, dn ++ todo, true, []⟩]⟩, none⟩ := by
+  cases todo with
+  | nil => exact absurd rfl hne
+  | cons x rest => exact solo_runY adm y0 j rest x sh rg dn r tr0 res hrun hr hs
+
 end Engine.Skel.GuardRef
